@@ -8,7 +8,7 @@ from .. import refsnmp as S
 from .. import refusm as U
 from ..refber import BerError
 from ..runner import rng_for
-from ..world import World, agent_for
+from ..world import World, agent_for, agent_user, make_credentials
 
 ID = "C11"
 LEVEL = "exploration"
@@ -27,7 +27,7 @@ ASSUMPTIONS = [
     "the plug-in namespace is the seam the property prescribes; the repository ships no real cipher",
 ]
 PROBES = ["verifstream2", "slow_agent_time_differs", "set_with_marker", "context_name", "md5", "sha1", "walk_many_exchanges",
-          "priv_pass_differs_from_auth_pass"]
+          "priv_pass_differs_from_auth_pass", "configured_context_engine", "key_rotation", "hash_rotation", "agent_clock_ahead"]
 shrink_lists: List[tuple] = []
 OPS = ["get", "multiget", "getnext", "set", "multiset", "bulkget", "walk"]
 BASE = (1, 3, 6, 1, 2, 1, 7)
@@ -48,10 +48,23 @@ def plan_for(tier: str, seed: int, i: int) -> dict:
     return {"prop": ID, "proto": proto, "engine_id": b"\x80" + gen.gen_bytes(rng, rng.choice([4, 11, 31])),
             "op": rng.choice(OPS), "payload": rng.choice([0, 1, 16, 100, 127, 128, 300]),
             "context_name": gen.gen_bytes(rng, rng.choice([0, 0, 6, 32])),
-            "delay_s": rng.choice([0, 0, 1, 2, 3]), "boots": rng.choice([1, 7, 65536]), "time0": rng.choice([0, 149, 4000, 2**24])}
+            "delay_s": rng.choice([0, 0, 1, 2, 3]), "boots": rng.choice([1, 7, 65536]), "time0": rng.choice([0, 149, 4000, 2**24]),
+            # a context engine id configured by the user (proxy / remote context): keys stay localised to the AGENT's engine
+            "engine_cfg": gen.gen_bytes(rng, rng.choice([5, 12])) if rng.random() < 0.25 else b"",
+            # key rotation on the same client: same user and engine, new privacy password and/or authentication hash
+            "rotate": rng.choice([None, None, "priv_pass", "hash", "both"]),
+            "priv_pass2": gen.gen_bytes(rng, rng.choice([1, 9, 40])), "ctx_echo": rng.random() < 0.3,
+            # the agent's clock runs ahead of what the client can estimate (forward step after discovery, inside the window)
+            "skew_s": rng.choice([0, 0, 1, 7, 100])}
 
 
 def simplify(plan: dict):
+    if plan.get("rotate"):
+        p = dict(plan); p["rotate"] = None; yield p
+    if plan.get("engine_cfg"):
+        p = dict(plan); p["engine_cfg"] = b""; yield p
+    if plan.get("skew_s"):
+        p = dict(plan); p["skew_s"] = 0; yield p
     if plan["delay_s"]:
         p = dict(plan); p["delay_s"] = 0; yield p
     if plan["context_name"]:
@@ -68,7 +81,15 @@ def execute(plan: dict) -> dict:
     mib = {BASE + (1, 1, 1): ("str", body), BASE + (1, 1, 2): ("int", 42), BASE + (1, 2, 1): ("c32", 7)}
     agent = w.add_agent(agent_for(proto, mib, engine_id=plan["engine_id"], boots=plan["boots"], time0=plan["time0"]))
     agent.delay_for = lambda req: 0 if req.get("discovery") else plan["delay_s"] * 1024
-    client = w.client(proto, timeout=6, retries=1, context_name=plan["context_name"])
+    agent.report_ctx_echo = bool(plan.get("ctx_echo"))
+    if plan.get("skew_s"):
+        def hook_v3(req: dict, f: dict) -> dict:
+            if req.get("discovery") and not getattr(agent, "_stepped", False):
+                agent._stepped = True  # type: ignore[attr-defined]
+                w.loop.call_soon(lambda: agent.clock_step(w.loop.time(), plan["skew_s"]))
+            return f
+        agent.hook_v3 = hook_v3
+    client = w.client(proto, timeout=6, retries=1, context_name=plan["context_name"], engine_id=plan.get("engine_cfg", b""))
     o1, o2, o3 = sorted(mib)
     setval = ("str", MARKER + b"s" * plan["payload"])
     op = {"get": {"op": "get", "oid": o1}, "multiget": {"op": "multiget", "oids": [o1, o2, o3]},
@@ -77,15 +98,6 @@ def execute(plan: dict) -> dict:
           "multiset": {"op": "multiset", "items": [(o2, setval), (o3, ("str", MARKER))]},
           "bulkget": {"op": "bulkget", "scalars": [o2], "repeaters": [BASE + (1,)], "maxrep": 3},
           "walk": {"op": "walk", "root": BASE + (1,)}}[plan["op"]]
-    res = exc = None
-
-    async def one() -> Any:
-        return await scen.do_op(client, op)
-    try:
-        res = w.run(one())
-    except Exception as e:  # noqa: BLE001
-        exc = e
-    w.settle()
     violation = None
 
     def fail(clause: str, d: str) -> None:
@@ -93,121 +105,154 @@ def execute(plan: dict) -> dict:
         if violation is None:
             violation = {"clause": clause, "detail": "%s | %s" % (d, describe(plan))}
 
-    calls = list(vs.CALLS)
-    encs = [c for c in calls if c["op"] == "enc"]
-    decs = [c for c in calls if c["op"] == "dec"]
-    data = [r for r in agent.requests if not r.get("discovery")]
-    disco = [r for r in agent.requests if r.get("discovery")]
-    want_key = U.localised_key(proto["auth"], proto["priv_pass"], plan["engine_id"])
-    disco_time = S.decode_message(disco[0]["responses"][0])["sec"]["time"] if disco and disco[0]["responses"] else None
-    # plug-in sanity (assumption of the property)
-    for c in encs[:1]:
-        mod = vs if c["method"] == "verifstream" else __import__("puresnmp_plugins.priv.verifstream2", fromlist=["x"])
-        n_before = len(vs.CALLS)
-        back = mod.decrypt_data(c["key"], c["engine_id"], c["boots"], c["time"], c["salt"], c["cipher"])
-        del vs.CALLS[n_before:]
-        if back != c["plain"]:
-            fail("harness", "plug-in does not invert itself")
-    if len(encs) != len(data):
-        fail("encrypt-call-count", "%d encrypt calls for %d requests" % (len(encs), len(data)))
+    phases = [proto]
+    rot = plan.get("rotate")
+    if rot:
+        p2 = dict(proto)
+        if rot in ("priv_pass", "both"):
+            p2["priv_pass"] = plan["priv_pass2"]
+        if rot in ("hash", "both"):
+            p2["auth"] = "sha1" if proto["auth"] == "md5" else "md5"
+        phases.append(p2)
     time_differs = False
-    for c, r in zip(encs, data):
-        where = "request #%d" % r["n"]
-        raw = r["raw"]
+    n_enc = n_dec = 0
+    excname = None
+    for ph, proto in enumerate(phases):
+        if ph > 0:
+            u = agent_user(proto)
+            agent.users[u.name] = u
+            client.configure(credentials=make_credentials(proto))
+        c0, r0 = len(vs.CALLS), len(agent.requests)
+        cur = dict(agent.mib)
+        res = exc = None
+
+        async def one() -> Any:
+            return await scen.do_op(client, op)
         try:
-            msg = S.decode_message(raw)
-        except BerError as be:
-            fail("not-well-formed", "%s: %s" % (where, be))
-            continue
-        if msg["encrypted"] is None:
-            fail("plaintext-on-wire", "%s: msgData is not an OCTET STRING" % where)
-            continue
-        if msg["encrypted"] != c["cipher"]:
-            fail("ciphertext-mismatch", "%s: msgData differs from what the plug-in returned" % where)
-        if msg["sec"]["priv"] != c["salt"]:
-            fail("salt-mismatch", "%s: msgPrivacyParameters %r, plug-in salt %r" % (where, msg["sec"]["priv"], c["salt"]))
-        if c["method"] != proto["priv"]:
-            fail("wrong-plug-in", "%s: plug-in %s used" % (where, c["method"]))
-        if c["key"] != want_key:
-            fail("wrong-key", "%s: key %s, reference localisation %s" % (where, c["key"].hex(), want_key.hex()))
-        if c["engine_id"] != plan["engine_id"] or c["boots"] != plan["boots"]:
-            fail("wrong-parameters", "%s: engine id/boots %r/%r" % (where, c["engine_id"], c["boots"]))
-        if disco_time is not None and not disco_time <= c["time"] <= disco_time + int(w.loop.time()) + 1:
-            fail("wrong-parameters", "%s: time %r, discovered %r" % (where, c["time"], disco_time))
-        if (c["boots"], c["time"]) != (msg["sec"]["boots"], msg["sec"]["time"]):
-            fail("wrong-parameters", "%s: plug-in got boots/time %r, message carries %r" % (
-                where, (c["boots"], c["time"]), (msg["sec"]["boots"], msg["sec"]["time"])))
-        try:
-            scoped = S.decode_scoped_bytes(c["plain"])
-        except BerError as be:
-            fail("plaintext-not-scoped-pdu", "%s: %s" % (where, be))
-            continue
-        want_ctx_engine = plan["engine_id"]
-        if scoped["ctx_engine"] != want_ctx_engine or scoped["ctx_name"] != plan["context_name"]:
-            fail("context", "%s: %r/%r" % (where, scoped["ctx_engine"], scoped["ctx_name"]))
-        if r.get("scoped") is not None and scoped["pdu"] != r["scoped"]["pdu"]:
-            fail("ciphertext-mismatch", "%s: agent decrypted a different PDU" % where)
-        if c["plain"] in raw or (len(c["plain"]) > 24 and c["plain"][8:-8] in raw):
-            fail("plaintext-on-wire", "%s: the plaintext scoped PDU occurs in the datagram" % where)
-        if MARKER in raw:
-            fail("plaintext-on-wire", "%s: a marker string occurs in the datagram" % where)
-        if r["verdict"] != "ok":
-            fail("request-refused:" + r["verdict"], "%s: agent verdict %s" % (where, r["verdict"]))
-    # responses
-    resp_by_salt = {}
-    for r in data:
-        for raw in r["responses"]:
-            m = S.decode_message(raw)
-            resp_by_salt[m["sec"]["priv"]] = m
-            if m["sec"]["time"] != r["msg"]["sec"]["time"]:
-                time_differs = True
-    for c in decs:
-        m = resp_by_salt.get(c["salt"])
-        if m is None:
-            fail("decrypt-parameters", "decrypt called with salt %r which no response carried" % c["salt"])
-            continue
-        if (c["engine_id"], c["boots"], c["time"]) != (m["sec"]["engine_id"], m["sec"]["boots"], m["sec"]["time"]):
-            fail("decrypt-parameters", "decrypt got %r, the response carries %r" % (
-                (c["engine_id"], c["boots"], c["time"]), (m["sec"]["engine_id"], m["sec"]["boots"], m["sec"]["time"])))
-        if c["key"] != want_key:
-            fail("wrong-key", "decrypt key %s, reference %s" % (c["key"].hex(), want_key.hex()))
-        if c["cipher"] != m["encrypted"]:
-            fail("decrypt-parameters", "decrypt input differs from the response's msgData")
-    excname = type(exc).__name__ if exc else None
-    if exc is not None:
-        fail("raised:" + excname, "%s: %s" % (excname, exc))
-    else:
-        want: Any = None
-        if plan["op"] == "get":
-            want = mib[o1]
-        elif plan["op"] == "multiget":
-            want = [mib[o1], mib[o2], mib[o3]]
-        elif plan["op"] == "getnext":
-            want = (o1, mib[o1])
-        elif plan["op"] == "set":
-            want = setval
-        elif plan["op"] == "walk":
-            want = sorted(mib.items())
-        if want is not None and res != want:
-            fail("wrong-result", "call returned %r, model %r" % (str(res)[:100], str(want)[:100]))
+            res = w.run(one())
+        except Exception as e:  # noqa: BLE001
+            exc = e
+        w.settle()
+        calls = list(vs.CALLS)[c0:]
+        encs = [c for c in calls if c["op"] == "enc"]
+        decs = [c for c in calls if c["op"] == "dec"]
+        data = [r for r in agent.requests[r0:] if not r.get("discovery")]
+        disco = [r for r in agent.requests if r.get("discovery")]
+        want_key = U.localised_key(proto["auth"], proto["priv_pass"], plan["engine_id"])
+        disco_time = S.decode_message(disco[0]["responses"][0])["sec"]["time"] if disco and disco[0]["responses"] else None
+        # plug-in sanity (assumption of the property)
+        for c in encs[:1]:
+            mod = vs if c["method"] == "verifstream" else __import__("puresnmp_plugins.priv.verifstream2", fromlist=["x"])
+            n_before = len(vs.CALLS)
+            back = mod.decrypt_data(c["key"], c["engine_id"], c["boots"], c["time"], c["salt"], c["cipher"])
+            del vs.CALLS[n_before:]
+            if back != c["plain"]:
+                fail("harness", "plug-in does not invert itself")
+        if len(encs) != len(data):
+            fail("encrypt-call-count", "%d encrypt calls for %d requests" % (len(encs), len(data)))
+        for c, r in zip(encs, data):
+            where = "request #%d" % r["n"]
+            raw = r["raw"]
+            try:
+                msg = S.decode_message(raw)
+            except BerError as be:
+                fail("not-well-formed", "%s: %s" % (where, be))
+                continue
+            if msg["encrypted"] is None:
+                fail("plaintext-on-wire", "%s: msgData is not an OCTET STRING" % where)
+                continue
+            if msg["encrypted"] != c["cipher"]:
+                fail("ciphertext-mismatch", "%s: msgData differs from what the plug-in returned" % where)
+            if msg["sec"]["priv"] != c["salt"]:
+                fail("salt-mismatch", "%s: msgPrivacyParameters %r, plug-in salt %r" % (where, msg["sec"]["priv"], c["salt"]))
+            if c["method"] != proto["priv"]:
+                fail("wrong-plug-in", "%s: plug-in %s used" % (where, c["method"]))
+            if c["key"] != want_key:
+                fail("wrong-key", "%s: key %s, reference localisation %s" % (where, c["key"].hex(), want_key.hex()))
+            if c["engine_id"] != plan["engine_id"] or c["boots"] != plan["boots"]:
+                fail("wrong-parameters", "%s: engine id/boots %r/%r" % (where, c["engine_id"], c["boots"]))
+            if disco_time is not None and not disco_time <= c["time"] <= disco_time + int(w.loop.time()) + 1 + plan.get("skew_s", 0):
+                fail("wrong-parameters", "%s: time %r, discovered %r" % (where, c["time"], disco_time))
+            if (c["boots"], c["time"]) != (msg["sec"]["boots"], msg["sec"]["time"]):
+                fail("wrong-parameters", "%s: plug-in got boots/time %r, message carries %r" % (
+                    where, (c["boots"], c["time"]), (msg["sec"]["boots"], msg["sec"]["time"])))
+            try:
+                scoped = S.decode_scoped_bytes(c["plain"])
+            except BerError as be:
+                fail("plaintext-not-scoped-pdu", "%s: %s" % (where, be))
+                continue
+            want_ctx_engine = plan.get("engine_cfg") or plan["engine_id"]
+            if scoped["ctx_engine"] != want_ctx_engine or scoped["ctx_name"] != plan["context_name"]:
+                fail("context", "%s: %r/%r" % (where, scoped["ctx_engine"], scoped["ctx_name"]))
+            if r.get("scoped") is not None and scoped["pdu"] != r["scoped"]["pdu"]:
+                fail("ciphertext-mismatch", "%s: agent decrypted a different PDU" % where)
+            if c["plain"] in raw or (len(c["plain"]) > 24 and c["plain"][8:-8] in raw):
+                fail("plaintext-on-wire", "%s: the plaintext scoped PDU occurs in the datagram" % where)
+            if MARKER in raw:
+                fail("plaintext-on-wire", "%s: a marker string occurs in the datagram" % where)
+            if r["verdict"] != "ok":
+                fail("request-refused:" + r["verdict"], "%s: agent verdict %s" % (where, r["verdict"]))
+        # responses
+        resp_by_salt = {}
+        for r in data:
+            for raw in r["responses"]:
+                m = S.decode_message(raw)
+                resp_by_salt[m["sec"]["priv"]] = m
+                if m["sec"]["time"] != r["msg"]["sec"]["time"]:
+                    time_differs = True
+        for c in decs:
+            m = resp_by_salt.get(c["salt"])
+            if m is None:
+                fail("decrypt-parameters", "decrypt called with salt %r which no response carried" % c["salt"])
+                continue
+            if (c["engine_id"], c["boots"], c["time"]) != (m["sec"]["engine_id"], m["sec"]["boots"], m["sec"]["time"]):
+                fail("decrypt-parameters", "decrypt got %r, the response carries %r" % (
+                    (c["engine_id"], c["boots"], c["time"]), (m["sec"]["engine_id"], m["sec"]["boots"], m["sec"]["time"])))
+            if c["key"] != want_key:
+                fail("wrong-key", "decrypt key %s, reference %s" % (c["key"].hex(), want_key.hex()))
+            if c["cipher"] != m["encrypted"]:
+                fail("decrypt-parameters", "decrypt input differs from the response's msgData")
+        excname = type(exc).__name__ if exc else None
+        if exc is not None:
+            fail("raised:" + excname, "%s: %s" % (excname, exc))
+        else:
+            want: Any = None
+            if plan["op"] == "get":
+                want = cur[o1]
+            elif plan["op"] == "multiget":
+                want = [cur[o1], cur[o2], cur[o3]]
+            elif plan["op"] == "getnext":
+                want = (o1, cur[o1])
+            elif plan["op"] == "set":
+                want = setval
+            elif plan["op"] == "walk":
+                want = sorted(cur.items())
+            if want is not None and res != want:
+                fail("wrong-result", "call returned %r, model %r" % (str(res)[:100], str(want)[:100]))
+        n_enc += len(encs)
+        n_dec += len(decs)
+    proto = plan["proto"]
     probes = {
         "verifstream2": int(proto["priv"] == "verifstream2"), "slow_agent_time_differs": int(time_differs),
         "set_with_marker": int(plan["op"] in ("set", "multiset")), "context_name": int(bool(plan["context_name"])),
         "md5": int(proto["auth"] == "md5"), "sha1": int(proto["auth"] == "sha1"),
         "walk_many_exchanges": int(plan["op"] == "walk"),
         "priv_pass_differs_from_auth_pass": int(proto["priv_pass"] != proto["auth_pass"]),
+        "configured_context_engine": int(bool(plan.get("engine_cfg"))),
+        "key_rotation": int(plan.get("rotate") in ("priv_pass", "both")), "hash_rotation": int(plan.get("rotate") in ("hash", "both")),
+        "agent_clock_ahead": int(bool(plan.get("skew_s"))),
     }
     counters = dict(w.net.counters)
-    counters["encrypt_calls"] = len(encs)
-    counters["decrypt_calls"] = len(decs)
+    counters["encrypt_calls"] = n_enc
+    counters["decrypt_calls"] = n_dec
     for kk, v in probes.items():
         counters["probe_" + kk] = v
     out = {
         "violation": violation, "digest": w.net.digest(), "triggers": [], "counters": counters,
         "shape": repr((proto["priv"], proto["auth"], plan["op"], plan["payload"], plan["delay_s"], len(plan["context_name"]),
                        len(plan["engine_id"]))),
-        "nontrivial": bool(encs), "sim_s": w.loop.time(), "exchanges": agent.exchanges,
-        "summary": "%s %s/%s enc=%d dec=%d -> %s" % (plan["op"], proto["priv"], proto["auth"], len(encs), len(decs),
+        "nontrivial": n_enc > 0, "sim_s": w.loop.time(), "exchanges": agent.exchanges,
+        "summary": "%s %s/%s enc=%d dec=%d -> %s" % (plan["op"], proto["priv"], proto["auth"], n_enc, n_dec,
                                                      excname or "ok"),
     }
     w.close()
